@@ -368,3 +368,112 @@ def build_reference(cfgs, args):
                 ref["__mutated__"].append(task)
             ref["__tables__"].update(tabs)
     return ref
+
+
+# ------------------------------------------------------------------------------------------------------------------
+# single preemption at operator granularity
+# ------------------------------------------------------------------------------------------------------------------
+from torch.overrides import TorchFunctionMode      # noqa: E402
+
+
+class _PreemptAt(TorchFunctionMode):
+    """counts the torch-level operations of the calling thread; before operation number k it runs `action` once"""
+
+    def __init__(self, k, action):
+        super().__init__()
+        self.k, self.action, self.n, self.fired = k, action, 0, False
+
+    def __torch_function__(self, func, types, args=(), kwargs=None):
+        self.n += 1
+        if self.k is not None and self.n == self.k and not self.fired:
+            self.fired = True
+            self.action()
+        return func(*args, **(kwargs or {}))
+
+
+def other_values(arg):
+    """an argument of the same structure, shapes and dtypes with different values (absent levels stay absent)"""
+    if isinstance(arg, torch.Tensor):
+        if arg.dim() <= 1:
+            return arg
+        return (arg.flip(-1) * -1.75 + 0.375).contiguous()
+    if isinstance(arg, (list, tuple)):
+        return type(arg)(other_values(a) for a in arg)
+    return arg
+
+
+def _same(out, ref, tol):
+    if len(out) != len(ref):
+        return "returned %d tensors, alone %d" % (len(out), len(ref))
+    for o, r in zip(out, ref):
+        if tuple(o.shape) != tuple(r.shape) or o.dtype != r.dtype:
+            return "shape/dtype %s %s, alone %s %s" % (tuple(o.shape), o.dtype, tuple(r.shape), r.dtype)
+        scale = float(r.abs().max()) + 1e-30
+        err = float((o.double() - r.double()).abs().max())
+        if not err <= tol * scale:
+            return "values differ from the call run alone by %.3g (relative %.3g)" % (err, err / scale)
+    return None
+
+
+def preempt_sweep(c_a, x, grad, partners, stride=1, dt=torch.float32):
+    """Run call A = POOL[c_a](arg x) with ONE preemption: before its k-th torch operation (k = 1, 1+stride, ...) a second
+    thread runs a complete call B (same shapes, other values; on the same module object, on a fresh instance, or on a
+    partner configuration with equal shapes - cycling with k) and returns; then A continues.  A's and B's results must
+    equal the results of the same calls run alone, and A's argument must be untouched.
+    -> (number of schedules run, number of operations of A, list of problem strings)"""
+    prev = torch.get_default_dtype()
+    torch.set_default_dtype(torch.float32)
+    try:
+        mod_a = POOL[c_a]["make"]()
+        arg_a = POOL[c_a]["args"][x](dt)
+        fp_a = snapshot(arg_a)
+        count = _PreemptAt(None, None)
+        with count:
+            ref_a = run_call(mod_a, arg_a, grad)
+        nops = count.n
+        arg_b = other_values(POOL[c_a]["args"][x](dt))
+        refs_b = {}
+        for c_b in partners:
+            refs_b[c_b] = run_call(POOL[c_b]["make"](), arg_b, False)
+        problems, nrun = [], 0
+        tol = 1e-5 if dt == torch.float32 else 1e-11
+        for k in range(1, nops + 1, stride):
+            c_b = partners[(k // max(stride, 1)) % len(partners)]
+            shared = (c_b == c_a) and ((k // max(stride, 1)) // len(partners)) % 2 == 0
+            mod_b = mod_a if shared else POOL[c_b]["make"]()
+            box = {}
+
+            def run_b():
+                def body():
+                    try:
+                        box["out"] = run_call(mod_b, arg_b, False)
+                    except Exception as e:   # noqa
+                        box["err"] = e
+                t = threading.Thread(target=body, daemon=True)
+                t.start()
+                t.join(120)
+            mode = _PreemptAt(k, run_b)
+            try:
+                with mode:
+                    out_a = run_call(mod_a, arg_a, grad)
+            except Exception as e:   # noqa
+                problems.append("k=%d: %s raised %r when preempted by %s" % (k, POOL[c_a]["name"], e, POOL[c_b]["name"]))
+                continue
+            nrun += 1
+            where = "before operation %d of %d of %s(arg %d, grad=%s), preempted by a complete call of %s on %s" % (
+                k, nops, POOL[c_a]["name"], x, grad, POOL[c_b]["name"], "the same module object" if shared else "another instance")
+            if snapshot(arg_a) != fp_a:
+                problems.append("%s: the preempted call's argument was modified" % where)
+                fp_a = snapshot(arg_a)
+            d = _same(out_a, ref_a, tol)
+            if d:
+                problems.append("%s: the PREEMPTED call %s" % (where, d))
+            if "err" in box:
+                problems.append("%s: the preempting call raised %r" % (where, box["err"]))
+            elif "out" in box:
+                d = _same(box["out"], refs_b[c_b], tol)
+                if d:
+                    problems.append("%s: the PREEMPTING call %s" % (where, d))
+        return nrun, nops, problems
+    finally:
+        torch.set_default_dtype(prev)
